@@ -156,7 +156,7 @@ theorem labelsBetween_nil {g : Graph} {a b : Int} (h : g.edgeData a b = []) : la
 
 theorem selL_result (d : Dom g x sub anchors) (a b : Int) :
     selL a b (tri (replaceNode g x sub anchors).edges) = selL a b (TA g x ++ TB g sub ++ TC g x sub anchors) := by
-  rw [selL_tri_edges d.w4, d.labels, selL_append, selL_append, selL_TA d.wg, selL_TB d.ws]
+  rw [replaceNode_eq_len_of_dom0 d.toDom0, selL_tri_edges d.w4, d.labels, selL_append, selL_append, selL_TA d.wg, selL_TB d.ws]
   have hx := d.x_range
   have hi := dom_incOk d
   unfold specLabelsOf
